@@ -673,6 +673,28 @@ def hostile_recreate(s):
     s.do(E("usr0", {"k": "delete_listing", "id": 2}), "valid")
 
 
+def hook_edge_inputs(s):
+    """Inputs that only a hook can carry (found unexecuted by tools/coverage.py): a whitelisted buyer equal to the
+    creator on the NFT path, an unparsable whitelisted buyer, and a zero CW20 amount (an honest token refuses to send
+    zero, so only a contract calling Receive directly can deliver it)."""
+    ask = G(n=[["uosmo", 7]])
+    nft_send(s, "usr0", COLL1, "1", {"k": "create_listing_cw721", "id": 1, "ask": ask, "wl": "usr0"})     # refused: own buyer
+    nft_send(s, "usr0", COLL1, "1", {"k": "create_listing_cw721", "id": 1, "ask": ask, "wl": "x"})        # refused: bad address
+    nft_send(s, "usr0", COLL1, "1", {"k": "create_listing_cw721", "id": 1, "ask": ask, "wl": "usr1"})
+    cw20_send(s, "usr0", CW20A, 5, {"k": "create_listing_cw20", "id": 2, "ask": ask, "wl": "usr0"})       # refused
+    cw20_send(s, "usr0", CW20A, 5, {"k": "create_listing_cw20", "id": 2, "ask": ask, "wl": "usr1"})
+    cw20_send(s, "usr0", CW20A, 0, {"k": "add_to_listing_cw20", "id": 2})                                 # the token refuses zero
+    bucket(s, "usr1", 1, [["uosmo", 7]])
+    for victim, inner in (("usr1", {"k": "create_bucket_cw20", "id": 5}), ("usr1", {"k": "add_to_bucket_cw20", "id": 1}),
+                          ("usr0", {"k": "add_to_listing_cw20", "id": 2}),
+                          ("usr0", {"k": "create_listing_cw20", "id": 6, "ask": ask, "wl": None})):
+        s.do(E(HOSTILE, {"k": "receive", "sender": victim, "amount": 0, "inner": inner}), "hostile")      # all refused
+    buy(s, "usr1", 77, 1)                                           # own bucket, a listing id that does not exist: refused
+    buy(s, "usr1", 1, 1)                                            # listing 1 not finalized yet: refused
+    s.do(E("usr0", {"k": "finalize", "id": 1, "secs": 600}), "valid")
+    buy(s, "usr1", 1, 1)
+
+
 def hostile_freeze(s):
     """F1 (known finding): a forged top-up freezes the victim's bucket."""
     ask = G(n=[["uosmo", 7]])
@@ -760,6 +782,7 @@ SCRIPTS = {
     "hostile_hooks": (world.default_cfg, hostile_hooks, ()),
     "hostile_freeze": (world.default_cfg, hostile_freeze, ("no_drain",)),
     "hostile_recreate": (world.default_cfg, hostile_recreate, ()),
+    "hook_edge_inputs": (world.default_cfg, hook_edge_inputs, ()),
     "long_lived_listings": (world.default_cfg, long_lived_listings, ()),
     "big_amounts": (big_amounts_cfg, big_amounts, ()),
     "queries_pages": (queries_pages_cfg, queries_pages, ("all_pages",)),
